@@ -198,15 +198,29 @@ pub fn run(ctx: &Ctx) -> Report {
         });
         families.push((4, sets, "n4_binary_clauses_covering_all_four_variables"));
     }
+    let mut explicit: Vec<(usize, Vec<Vec<Clause>>, String)> = Vec::new();
     for (n, mut sets, name) in families {
         let types = clause_types(n);
         ctx.rotate(&mut sets);
-        let chunks: Vec<&[Vec<usize>]> = sets.chunks(48).collect();
+        explicit.push((n, sets.iter().map(|s| s.iter().map(|&i| types[i].clone()).collect()).collect(), name.to_string()));
+    }
+    // five variables: one clause of width 4 plus two binary clauses linking the fifth variable
+    // (a single decision falsifies two literals of the open wide clause), every decision order
+    {
+        let pats: Vec<usize> = if ctx.tier == Tier::Quick { vec![0b1111, 0b0101] } else { (0..16).collect() };
+        let mut cnfs = crate::props::c09::wide_family(&pats);
+        if ctx.tier == Tier::Quick {
+            cnfs = cnfs.into_iter().step_by(2).collect();
+        }
+        explicit.push((5, cnfs, "n5_wide4_plus_2_binary".to_string()));
+    }
+    for (n, sets, name) in explicit {
+        let chunks: Vec<&[Vec<Clause>]> = sets.chunks(if n >= 5 { 8 } else { 48 }).collect();
         let fam = par_run(ctx, &chunks, |_, chunk| {
             let mut r = Report::default();
             r.exhaustive = true;
             let mut cn = Counters::default();
-            let cnfs: Vec<Vec<Clause>> = chunk.iter().map(|s| s.iter().map(|&i| types[i].clone()).collect()).collect();
+            let cnfs: Vec<Vec<Clause>> = chunk.to_vec();
             for c in cnfs.iter() {
                 let nv = num_vars(c);
                 r.states += 1;
@@ -247,7 +261,7 @@ pub fn run(ctx: &Ctx) -> Report {
             r
         });
         rep.add_extra(&format!("{}_cnfs", name), fam.states);
-        rep.bound(name, json!({"variables": n, "cnfs": sets.len()}));
+        rep.bound(&name, json!({"variables": n, "cnfs": sets.len()}));
         rep.merge(fam);
     }
     let unsat = rep.extra.get("unsat_results").and_then(|v| v.as_u64()).unwrap_or(0);
